@@ -428,6 +428,24 @@ def literal_boundary_samples(draw, universe, strs=None):
     return [{k: [pool[:cut], pool[cut:]]}]
 
 
+@st.composite
+def comma_collision_samples(draw, universe, strs=None):
+    """containers whose literal sets collide when joined with commas (['a,b'] vs ['a', 'b']; '...' vs an overflowed literal)"""
+    k = draw(st.sampled_from(universe))
+    ts = sorted(draw(st.lists(st.sampled_from(["a", "b", "red", "green", "x y", "", "1a"]), min_size=2, max_size=3, unique=True)))
+    joined = ",".join(ts)
+    wrap = draw(st.sampled_from(["list", "dict"]))
+    mk = (lambda xs: list(xs)) if wrap == "list" else (lambda xs: {"n_%d" % i: x for i, x in enumerate(xs)})
+    variants = [{k: mk(ts)}, {k: mk([joined])}]
+    if draw(st.integers(0, 3)) == 0:
+        variants = [{k: mk(["..."])}, {k: mk(["x" * 25])}]
+    if draw(st.booleans()):
+        variants.reverse()
+    if draw(st.booleans()):
+        variants.append({k: draw(st.sampled_from([1, None, "plain"]))})
+    return variants
+
+
 def sample_lists(universe, strs=None, max_samples=5, max_leaves=10, weights=None):
     """G-JSON: the mix of generic and boosted shapes for one key universe."""
     parts = [
@@ -441,6 +459,7 @@ def sample_lists(universe, strs=None, max_samples=5, max_leaves=10, weights=None
         shared_child_samples(universe, strs),
         dictlike_samples(universe, strs),
         literal_boundary_samples(universe, strs),
+        comma_collision_samples(universe, strs),
     ]
     return st.one_of(*parts)
 
